@@ -28,25 +28,28 @@ FileTasks == [
   A |-> << T("t1", {"al"}, <<>>, <<>>), T("t2", {}, <<"t1">>, <<"t1", ":r1">>), T("default", {}, <<>>, <<>>),
           T("t4", {}, <<>>, <<>>) >>,
   B |-> << T("t1", {}, <<>>, <<>>), T("t3", {}, <<"t1">>, <<>>) >>,
-  C |-> << T("c1", {}, <<>>, <<":r1">>), T("default", {}, <<>>, <<>>) >> ]
+  C |-> << T("c1", {}, <<>>, <<":r1">>), T("default", {}, <<>>, <<>>) >>,
+  D |-> << T("d1", {}, <<>>, <<>>) >> ]
 
 \* ---- include statements
 Inc(ns, f) == [ns |-> ns, file |-> f, flatten |-> FALSE, internal |-> FALSE, missing |-> "no",
                alias |-> "", exclude |-> "", dir |-> "", iv |-> ""]
-Variants(i) ==
+\* tag: every include statement passes its own value for the include variable IV
+Variants(i, tag) ==
   {i, [i EXCEPT !.flatten = TRUE], [i EXCEPT !.internal = TRUE], [i EXCEPT !.missing = "optional"],
    [i EXCEPT !.missing = "required"], [i EXCEPT !.alias = "z"], [i EXCEPT !.exclude = "t1"],
-   [i EXCEPT !.dir = "sub"], [i EXCEPT !.iv = i.ns]}
-Variants2(i) == UNION {Variants(j) : j \in Variants(i)}
+   [i EXCEPT !.dir = "sub"], [i EXCEPT !.iv = tag \o i.ns]}
+Variants2(i, tag) == UNION {Variants(j, tag) : j \in Variants(i, tag)}
 NonDefault(i) == Cardinality({k \in {"flatten", "internal", "missing", "alias", "exclude", "dir", "iv"} :
                                  i[k] # Inc(i.ns, i.file)[k]})
 
 \* trees: what root, A, B and C include
-RootIncs == {<<>>} \cup {<<i>> : i \in Variants2(Inc("x", "A")) \cup Variants2(Inc("x", "B")) \cup Variants2(Inc("x", "C"))}
-            \cup {<<i, j>> : i \in Variants2(Inc("x", "A")), j \in Variants2(Inc("y", "B")) \cup Variants2(Inc("y", "A")) \cup Variants2(Inc("y", "C"))}
-AIncs == {<<>>} \cup {<<i>> : i \in Variants(Inc("n", "C"))}
-BIncs == {<<>>} \cup {<<i>> : i \in Variants(Inc("n", "C"))}
-CIncs == {<<>>, <<Inc("m", "A")>>}
+RootIncs == {<<>>} \cup {<<i>> : i \in Variants2(Inc("x", "A"), "r") \cup Variants2(Inc("x", "B"), "r") \cup Variants2(Inc("x", "C"), "r")}
+            \cup {<<i, j>> : i \in Variants2(Inc("x", "A"), "r"), j \in Variants2(Inc("y", "B"), "r") \cup Variants2(Inc("y", "A"), "r") \cup Variants2(Inc("y", "C"), "r")}
+AIncs == {<<>>} \cup {<<i>> : i \in Variants(Inc("n", "C"), "a")}
+BIncs == {<<>>} \cup {<<i>> : i \in Variants(Inc("n", "C"), "b")}
+\* C may include A (a cycle) or the leaf D (with or without its own include variable)
+CIncs == {<<>>, <<Inc("m", "A")>>, <<Inc("d", "D")>>, <<[Inc("d", "D") EXCEPT !.iv = "cd"]>>}
 \* clash: the root file additionally defines a task literally named "x:t1" (task names may contain ':')
 RECURSIVE CountSeq(_)
 CountSeq(is) == IF is = <<>> THEN 0 ELSE NonDefault(Head(is)) + CountSeq(Tail(is))
@@ -129,10 +132,15 @@ Expected(t) ==
 PairOnOne(r) == Len(r) = 1 /\ NonDefault(r[1]) = 2
 Init == /\ \/ \E r \in Within(RootIncs), a \in Within(AIncs), b \in Within(BIncs), c \in CIncs, k \in BOOLEAN :
                 /\ CountSeq(r) + CountSeq(a) + CountSeq(b) + CountSeq(c) + (IF k THEN 1 ELSE 0) <= MaxOptions
-                /\ tree = [R |-> r, A |-> a, B |-> b, C |-> c, clash |-> k]
+                /\ tree = [R |-> r, A |-> a, B |-> b, C |-> c, D |-> <<>>, clash |-> k]
            \/ \E r \in {x \in RootIncs : PairOnOne(x)} :
                 /\ MaxOptions < 2
-                /\ tree = [R |-> r, A |-> <<>>, B |-> <<>>, C |-> <<>>, clash |-> FALSE]
+                /\ tree = [R |-> r, A |-> <<>>, B |-> <<>>, C |-> <<>>, D |-> <<>>, clash |-> FALSE]
+           \* the diamond whose two sides pass different include variables to the shared file, which includes a leaf
+           \/ \E c \in {<<Inc("d", "D")>>, <<[Inc("d", "D") EXCEPT !.iv = "cd"]>>, <<>>} :
+                /\ MaxOptions < 2
+                /\ tree = [R |-> <<Inc("x", "A"), Inc("y", "B")>>, A |-> <<[Inc("n", "C") EXCEPT !.iv = "an"]>>,
+                           B |-> <<[Inc("n", "C") EXCEPT !.iv = "bn"]>>, C |-> c, D |-> <<>>, clash |-> FALSE]
         /\ exp = Expected(tree)
 Next == FALSE /\ UNCHANGED <<tree, exp>>
 Spec == Init /\ [][Next]_<<tree, exp>>
